@@ -29,6 +29,7 @@ SHARDS = {"quick": 4, "thorough": 16}
 MIN_REACH = {
     "crops_sown_anew_whose_settings_file_kept_its_size_and_time_stamp": {"quick": 3, "thorough": 10},
     "batch_files_read": {"quick": 2500, "thorough": 30000},
+    "farmers_holding_a_resource_named_like_a_swept_argument": {"quick": 3, "thorough": 30},
     "contract_evals_choose_batch_settings": {"quick": 300, "thorough": 3000},
     "crops_given_a_size_and_a_count_that_agree": {"quick": 20, "thorough": 60},
     "farmers_that_are_instances_of_a_user_subclass": {"quick": 10, "thorough": 60},
@@ -358,6 +359,11 @@ def run_case(ctx, case):
             # the same name held both as a constant and as a resource of the farmer: a direct run passes the constant
             fc, fr = {"fc": 7, "both": 3}, {"res_r": "r0", "both": -1}
             ctx.count("farmers_holding_a_name_as_constant_and_resource")
+        elif w["mode"] == "grid" and w["combos"] and len(str(w["combos"])) % 2 == 0:
+            # NAME COLLISION: a resource of the farmer is named like an argument this sow sweeps over - a direct run passes the
+            # resource on top of the swept value (recorded from a real direct run below), so must the sown settings
+            fr = {"res_r": "r0", w["combos"][-1][0]: 99}
+            ctx.count("farmers_holding_a_resource_named_like_a_swept_argument")
         fa = {}
         if w["mode"] != "grid" and w.get("via") != "sow_combos" and w.get("case_spelling") == "tuple" and len(w["names"]) >= 2:
             # the Runner holds the names (and order) of positional cases; the sow call gives none - as Runner.run_cases
